@@ -4,6 +4,7 @@ C15 — property theorems.  (Helper lemmas live in `Lemmas.lean`.)
 import LimnoriaModel.C15.BootLemmas
 import LimnoriaModel.C15.ValidatorLemmas
 import LimnoriaModel.C15.NormLemmas
+import LimnoriaModel.C15.WrapLemmas
 namespace C15
 open Py
 
@@ -34,8 +35,7 @@ theorem nw_table_ok : Gen.Registry.nwEdgeBlanks = [' ', '\n', '\t', '\r'] := by 
 
 /-- NormalizedString: what `setValue` stores (`normalize v`, for every string `v`) is a fixed point
 of `normalize`, its `__str__` — quoted by `repr` or not — is one too, and a fresh node's
-`set(str(node))` gives the stored value back.  (The file level — line wrapping — is compared by
-the correspondence run; since the wrap fix lines are only cut at blanks.) -/
+`set(str(node))` gives the stored value back.  (File level: `normalized_file_roundtrip` below.) -/
 theorem normalized_value_roundtrip (pr : Char → Bool) (v : Str) :
     StrClass.set .normalized pr (strStr pr (StrClass.normalized.setValue v)) = .ok (StrClass.normalized.setValue v) :=
   normalized_roundtrip_aux quotes_table_ok nw_table_ok pr v
@@ -331,6 +331,19 @@ theorem file_always_loads (vs : List VSpec) (h : ∀ v ∈ vs, VSpecOk v) :
 
 example : VSpecOk ⟨some ["help".toList], some "a\nb".toList, "supybot.x.\\:net.#c".toList, "\"".toList⟩ := by
   unfold VSpecOk GoodName NoNL Plain; decide
+
+/-- **NormalizedString through the file, wrapping included** (after the wrap fix): for every string
+`v`, every reader-safe name (any length: the width never drops below 1) and any help block, the
+file `registry.close` writes — the escaped text cut into continuation lines at blanks, each line
+but the last ending in a backslash, each but the first indented — loads, and a fresh node set
+from the cached text holds `normalize v` again.  Wherever `textwrap` puts the line breaks
+(`wrapWords` is only used through "its lines are the words, in order, regrouped"). -/
+theorem normalized_file_roundtrip (pr : Char → Bool) (name : Str) (hn : GoodName name) (help : List Str)
+    (hhelp : ∀ l ∈ help, SkipLine l) (v : Str) :
+    ∃ T, readRegistry (fileText [⟨help.map (· ++ ['\n']), name,
+          nsSerialize name (encodeUE (strStr pr (StrClass.normalized.setValue v)))⟩]) = .ok [(name, T)] ∧
+      StrClass.set .normalized pr T = .ok (StrClass.normalized.setValue v) :=
+  normalized_file_roundtrip_aux header_table_ok quotes_table_ok nw_table_ok pr name hn help hhelp v
 
 /-- end to end for the String class: the line written for `v` under a reader-safe name loads, and
 `set` of the cached text gives `v` back -/
